@@ -1,7 +1,7 @@
 (* C09: what the driver evaluates on every observed case *)
 From Coq Require Import List Bool ZArith.
 Require Export C09_Model C09_Case.
-Require Import C09_Sound.
+Require Import C09_Sound C09_Rev.
 Import ListNotations.
 
 Definition case := C09_Case.case.
